@@ -14,7 +14,7 @@ def main():
     assert sh("git -C /repo status --porcelain").stdout.strip() == "", "repo not clean"
     results = {}
     for d in dirs:
-        d = d.rstrip("/")
+        d = os.path.abspath(d.rstrip("/"))
         meta = json.load(open(os.path.join(d, "meta.json")))
         props = props_override or meta.get("checks") or [meta["property"]]
         r = sh("git -C /repo apply %s/patch.diff" % d)
